@@ -42,4 +42,5 @@ long simomp_trace_nplan(int tid);
 void simomp_trace_plan(int tid, long j, long *lb, long *ub);
 long simomp_shadow_racy(void);
 int simomp_heap_check(long *leaks);
+void simomp_set_junk(int variant);   /* 0: serial twin, 1: parallel run */
 #endif
